@@ -8,6 +8,7 @@
 #include <fcntl.h>
 #include <time.h>
 #include <sys/personality.h>
+#include <signal.h>
 #include "h.h"
 
 void sim_install_crash_handler(void);
@@ -276,6 +277,7 @@ int main(int argc, char **argv) {
 		setenv("LCBSIM_NOASLR", "1", 1);
 	}
 	setvbuf(stdout, NULL, _IOLBF, 0);
+	signal(SIGPIPE, SIG_IGN); /* the pool blocks it in its threads; fibers share one OS thread */
 	sim_install_crash_handler();
 	if (argc < 2) { fprintf(stderr, "usage: vworker batch|serve|gen|replay ...\n"); return 2; }
 	if (0 == strcmp(argv[1], "batch")) return cmd_batch(argc, argv);
